@@ -197,7 +197,7 @@ MissFFs == { << >>,                                                     \* no li
              << LB(P1, "0.2") >>,                                       \* chain links; B has no atom a1/a2: pairs with B stay unlinked
              << LB(GT, "0.2") >>,
              << LA(ST, "0.2") >>,
-             << LB(P1, "0.2"), Lk(<<Z, ST>>, <<AtR(1, "a2", OA), AtR(2, "b1", OB)>>, <<Angle(1, 2, 1, "0.3")>>) >>,
+             << LB(P1, "0.2"), Lk(<<Z, ST>>, <<AtR(1, "a2", OA), AtR(2, "b1", OB)>>, <<Bond(1, 2, "0.3")>>) >>,
              << Lk(<<Z, ST>>, <<AtR(1, "a1", AB), AtR(2, "b1", OB)>>, <<Bond(1, 2, "0.2")>>), LB(GT, "0.3") >>,
              << LkF(<<Z, GT>>, <<AtR(1, "a2", AB), AtR(2, "a1", AB)>>, <<>>, <<XE(1, 2, "")>>, <<>>, <<>>) >>,        \* an edge without any interaction
              << Lk(<<Z, GT>>, <<AtR(1, "a2", AB), AtR(2, "a1", AB)>>, <<BondNE(1, 2, "0.2")>>) >>,                    \* a bond that makes no edge
